@@ -38,6 +38,13 @@ def replay_lines(rep, binary, d, lines, name, cover):
                 key = "path:%s:%s" % (exp["path"], vlib.hashlib.sha1(json.dumps(ops).encode()).hexdigest()[:10])
                 rep.violation(key, {"ops": ops}, exp, obs, why, "path")
             rep.nontrivial((exp["path"], exp["res"]["k"], exp["res"]["e"], exp["inprog"], min(exp["buflen"], 16)))
+        if o.get("hlen_diff"):
+            hd = o["hlen_diff"]
+            ops = l["prefix"] + l["tests"][:max(0, hd["step"] - len(l["prefix"])) + 1]
+            rep.violation("hdrlen:%s" % vlib.hashlib.sha1(json.dumps(ops).encode()).hexdigest()[:10], {"ops": ops, "header_len": hd["header_len"]},
+                          hd["with_data_len"], hd["with_other_len"],
+                          "the same records with %d in the length field of their headers are answered differently at step %d: the defragmenter works on the "
+                          "record's data, the field is not an input (heartbeat records excepted)" % (hd["header_len"], hd["step"]), "path")
         rep.cov["traces_validated_against_impl"] += 1
 
 
